@@ -302,6 +302,16 @@ func (r *Runner) Discharge(x *Exec, vc *VC) *Result {
 	if res.Status == "" {
 		res.Status = "unknown"
 		res.Output = strings.Join(res.Tried, " ")
+		nerr := 0
+		for _, t := range res.Tried {
+			if strings.Contains(t, ":error:") {
+				nerr++
+			}
+		}
+		if nerr == len(res.Tried) {
+			res.Status = "error"
+			res.Output = "all solvers rejected the query: " + firstLines(out, 3)
+		}
 	}
 	return res
 }
